@@ -8,12 +8,15 @@
 static FILE *verif_ndf;
 static long verif_native_choice(void) {
   long v = 0; char buf[128];
-  if (!verif_ndf) { const char *p = getenv("VERIF_ND_FILE"); verif_ndf = p ? fopen(p, "r") : 0; }
+  if (!verif_ndf) { extern char **environ; char **e; const char *p = 0;   /* harnesses may stub getenv: scan environ directly */
+    for (e = environ; e && *e; e++) if (!strncmp(*e, "VERIF_ND_FILE=", 14)) p = *e + 14;
+    verif_ndf = p ? fopen(p, "r") : 0; }
   if (verif_ndf && fgets(buf, sizeof buf, verif_ndf)) { v = strtol(buf, 0, 0); }
   return v;
 }
 #define VERIF_CHOICE() verif_native_choice()
 #define __CPROVER_assert(c, m) do { if (!(c)) { printf("%s: %s\n", strncmp((m), "WITNESS", 7) ? "VERIF-ASSERT-FIRED" : "VERIF-WITNESS", (m)); fflush(stdout); if (strncmp((m), "WITNESS", 7)) exit(1); } } while (0)
 #define __CPROVER_assume(c) do { if (!(c)) { printf("VERIF-ASSUME-FAILED line %d\n", __LINE__); fflush(stdout); exit(77); } } while (0)
+#define VERIF_TRACE(t, cs) printf("  segment: thread %d ran with preemption point %d -> pc=%d blocked=%d spin=%d done=%d\n", (t), (cs), TH[t].pc, TH[t].blocked, TH[t].spin, TH[t].done)
 #define __CPROVER_cover(c) do { } while (0)
 #endif
